@@ -379,3 +379,80 @@ func processWarmup(c *core.Ctx) {
 		}
 	}
 }
+
+// mutableRefs collects the addresses of everything mutable that is reachable from a tree through exported
+// and unexported fields alike: backing arrays of slices with capacity, maps, and the structs that pointers
+// lead to. (String data is immutable and does not count.)
+func mutableRefs(root any, f func(addr uintptr, what string) bool) {
+	seen := map[uintptr]bool{}
+	var walk func(v reflect.Value, path string, depth int) bool
+	walk = func(v reflect.Value, path string, depth int) bool {
+		if depth > 400 {
+			return true
+		}
+		switch v.Kind() {
+		case reflect.Interface:
+			if v.IsNil() {
+				return true
+			}
+			return walk(v.Elem(), path, depth+1)
+		case reflect.Ptr:
+			if v.IsNil() {
+				return true
+			}
+			p := v.Pointer()
+			if seen[p] {
+				return true
+			}
+			seen[p] = true
+			if v.Elem().Kind() == reflect.Struct && v.Elem().Type().Size() > 0 {
+				if !f(p, path+"(*"+v.Elem().Type().Name()+")") {
+					return false
+				}
+			}
+			return walk(v.Elem(), path, depth+1)
+		case reflect.Slice:
+			if v.Cap() > 0 {
+				if !f(v.Pointer(), path+"[] (backing array of "+v.Type().String()+")") {
+					return false
+				}
+			}
+			for i := 0; i < v.Len(); i++ {
+				if !walk(v.Index(i), fmt.Sprintf("%s[%d]", path, i), depth+1) {
+					return false
+				}
+			}
+		case reflect.Map:
+			if !v.IsNil() {
+				if !f(v.Pointer(), path+" (map)") {
+					return false
+				}
+			}
+		case reflect.Struct:
+			t := v.Type()
+			for i := 0; i < v.NumField(); i++ {
+				if !walk(v.Field(i), path+"."+t.Field(i).Name, depth+1) {
+					return false
+				}
+			}
+		}
+		return true
+	}
+	walk(reflect.ValueOf(root), "", 0)
+}
+
+// sharedMutable reports the first piece of mutable memory that two results of INDEPENDENT instances have in
+// common ("" if they are separate).
+func sharedMutable(a, b any) string {
+	refs := map[uintptr]string{}
+	mutableRefs(a, func(p uintptr, what string) bool { refs[p] = what; return true })
+	found := ""
+	mutableRefs(b, func(p uintptr, what string) bool {
+		if w, ok := refs[p]; ok {
+			found = fmt.Sprintf("%s of the second result is the same memory as %s of the first", what, w)
+			return false
+		}
+		return true
+	})
+	return found
+}
